@@ -175,10 +175,11 @@ def const_value(node: ast.AST | None, default=None):
 
 
 def kwarg(call: ast.Call, name: str) -> ast.AST | None:
+    """Argument bound to parameter ``name``: keyword, or positional through the callee's signature (gv.canon)."""
     for kw in call.keywords:
         if kw.arg == name:
             return kw.value
-    return None
+    return getattr(call, "_gv_bind", {}).get(name)
 
 
 def arg_or_kw(call: ast.Call, pos: int, name: str) -> ast.AST | None:
